@@ -176,11 +176,16 @@ def chk_kmers(case):
     leg = "kmer-iterator"
     begin(leg, case)
     s, k = case["seq"], case["k"]
-    got = [tuple(x) for x in pk.KmerGenerator(s, k)]
+    obj = pk.KmerGenerator(s, k)
+    got = [tuple(x) for x in obj]
     want = [tuple(x) for x in ORACLE.ask(op="kmers", seq=s, k=k)["ok"]]
-    note(leg, case, bool(want) and non_ascii(s), ["non-ascii"] if non_ascii(s) else [])
+    note(leg, case, bool(want) and non_ascii(s), (["non-ascii"] if non_ascii(s) else []) + ([">256-items"] if len(want) > 256 else []))
     if got != want:
         violation(leg, case, "kmer-iterator-differs", f"binding yields {len(got)} items, core {len(want)}; first difference at {next((i for i, (a, b) in enumerate(zip(got, want)) if a != b), min(len(got), len(want)))}")
+    # the object pulled again after its end: the core iterator has nothing more (a binding that starts over is tolerated)
+    again = [tuple(x) for x in obj]
+    if again and again != want:
+        violation(leg, case, "kmer-iterator-after-its-end", f"pulled again after its end the binding yields {len(again)} items that are neither nothing nor the {len(want)} items of the core")
 
 
 def chk_acgt(case):
@@ -199,11 +204,15 @@ def chk_mins(case):
     leg = "minimiser-iterator"
     begin(leg, case)
     s, w, m = case["seq"], case["w"], case["m"]
-    got = [tuple(x) for x in pk.MinimiserGenerator(s, w, m)]
+    obj = pk.MinimiserGenerator(s, w, m)
+    got = [tuple(x) for x in obj]
     want = [tuple(x) for x in ORACLE.ask(op="mins", seq=s, w=w, m=m)["ok"]]
     note(leg, case, bool(want) and non_ascii(s), ["non-ascii"] if non_ascii(s) else [])
     if got != want:
         violation(leg, case, "minimiser-iterator-differs", f"binding {got[:6]} ... ({len(got)}) vs core {want[:6]} ... ({len(want)})")
+    again = [tuple(x) for x in obj]
+    if again and again != want:
+        violation(leg, case, "minimiser-iterator-after-its-end", f"pulled again after its end the binding yields {len(again)} items that are neither nothing nor the {len(want)} items of the core")
 
 
 def close(a, b, tol=1e-12):
@@ -449,7 +458,7 @@ S_ST = st.one_of(st.sampled_from([1, 2, 3, 16, 100, 1 << 20]), st.integers(1, 1 
 
 def drivers():
     return {
-        "kmer-iterator": (st.fixed_dictionaries({"seq": any_text, "k": k_st}), 0.22),
+        "kmer-iterator": (st.fixed_dictionaries({"seq": st.one_of(any_text, any_text, any_text, st.text(alphabet=NUC, min_size=300, max_size=1500)), "k": k_st}), 0.22),
         "to-acgt": (k_st.flatmap(lambda k: st.fixed_dictionaries({"k": st.just(k), "x": st.one_of(st.integers(0, 4 ** k - 1), st.sampled_from([0, 4 ** k - 1]))})), 0.05),
         "minimiser-iterator": (wm_st().flatmap(lambda wm: st.fixed_dictionaries({"seq": st.one_of(any_text, long_text(wm[0])), "w": st.just(wm[0]), "m": st.just(wm[1])})), 0.22),
         "oligo": (st.fixed_dictionaries({"seqs": batch_st(any_text), "k": st.integers(1, 6), "norm": st.booleans()}), 0.17),
